@@ -135,7 +135,7 @@ def Wrapper(m: h.Instantiable) -> h.Module:
     wrapper_io = {p.name: wrapper.add(deepcopy(p)) for p in io(m).values()}
 
     # Create the inner instance
-    wrapper.add(h.Instance(name="inner", of=m)(**wrapper_io))
+    wrapper.add(h.Instance(name=_unused_name(wrapper, "inner"), of=m)(**wrapper_io))
 
     # And return the wrapper
     return wrapper
